@@ -1983,12 +1983,12 @@ int
 ppl_MIP_Problem_constraint_at_index(ppl_const_MIP_Problem_t mip,
                                     ppl_dimension_type i,
                                     ppl_const_Constraint_t* pc) try {
-#ifndef NDEBUG
-  ppl_dimension_type num_constraints;
-  ppl_MIP_Problem_number_of_constraints(mip, &num_constraints);
-  assert(i < num_constraints);
-#endif
   const MIP_Problem& mmip = *to_const(mip);
+  if (i >= static_cast<ppl_dimension_type>(mmip.constraints_end()
+                                           - mmip.constraints_begin())) {
+    throw std::invalid_argument("ppl_MIP_Problem_constraint_at_index"
+                                "(mip, i, pc): i out of range");
+  }
   const Constraint& c = *(mmip.constraints_begin() + i);
   *pc = to_const(&c);
   return 0;
@@ -2268,12 +2268,12 @@ int
 ppl_PIP_Problem_constraint_at_index(ppl_const_PIP_Problem_t pip,
                                     ppl_dimension_type i,
                                     ppl_const_Constraint_t* pc) try {
-#ifndef NDEBUG
-  ppl_dimension_type num_constraints;
-  ppl_PIP_Problem_number_of_constraints(pip, &num_constraints);
-  assert(i < num_constraints);
-#endif
   const PIP_Problem& ppip = *to_const(pip);
+  if (i >= static_cast<ppl_dimension_type>(ppip.constraints_end()
+                                           - ppip.constraints_begin())) {
+    throw std::invalid_argument("ppl_PIP_Problem_constraint_at_index"
+                                "(pip, i, pc): i out of range");
+  }
   const Constraint& c = *(ppip.constraints_begin() + i);
   *pc = to_const(&c);
   return 0;
